@@ -316,6 +316,27 @@ func (r *Rel) inferPass() {
 				for _, l := range x.Lhs {
 					r.assign(l, rs)
 				}
+			case *ast.FuncDecl:
+				// a $ref resolver (func(spec.Ref) (*spec.Schema, string)) belongs to the spec whose
+				// definitions it returns: the function object takes the side of its results, so
+				// that method values handed over as resolvers carry a side
+				if x.Body != nil && x.Type.Results != nil && len(x.Type.Results.List) >= 1 && x.Type.Params != nil && len(x.Type.Params.List) == 1 {
+					if pt := r.info.TypeOf(x.Type.Params.List[0].Type); pt != nil && NamedName(pt) == "Ref" {
+						fs := SNone
+						ast.Inspect(x.Body, func(m ast.Node) bool {
+							if _, isLit := m.(*ast.FuncLit); isLit {
+								return false
+							}
+							if rs, ok := m.(*ast.ReturnStmt); ok {
+								for _, res := range rs.Results {
+									fs = joinSide(fs, r.SideOf(res))
+								}
+							}
+							return true
+						})
+						r.setSide(r.info.Defs[x.Name], fs)
+					}
+				}
 			case *ast.ValueSpec:
 				for i, nm := range x.Names {
 					if i < len(x.Values) {
